@@ -5,7 +5,8 @@ package config
 // dereference (a genuine defect of this kind was repaired, see known_findings.txt). Every fixture under testdata that
 // parses as YAML is taken as a tree; for every sequence in it one variant with a null element prepended and one with
 // the first element replaced by null is loaded, and for every mapping value one variant with that value set to null.
-// Load must return (config or error) without panicking. Labelled bounded; never counted as proved.
+// Load must return (config or error) without panicking, and an accepted configuration must survive what LoadFile
+// (resolveFilepaths) and the status API (String) do with it. Labelled bounded; never counted as proved.
 
 import (
 	"encoding/json"
@@ -119,8 +120,11 @@ func TestBoundedC17NullEntries(t *testing.T) {
 						t.Errorf("%s variant %d: Load panicked: %v\n%s\n--- input ---\n%s", f, k, r, strings.Join(where, "\n"), mb)
 					}
 				}()
-				if _, err := Load(string(mb)); err == nil {
+				if c, err := Load(string(mb)); err == nil {
 					accepted++
+					// what LoadFile and the status API do with an accepted configuration
+					resolveFilepaths("/base", c)
+					_ = c.String()
 				}
 			}()
 		}
@@ -186,8 +190,10 @@ func TestBoundedC17NullEntries(t *testing.T) {
 					t.Errorf("%s: Load panicked: %v\n%s", desc, r, strings.Join(where, "\n"))
 				}
 			}()
-			if _, err := Load(in); err == nil {
+			if c, err := Load(in); err == nil {
 				accepted++
+				resolveFilepaths("/base", c)
+				_ = c.String()
 			}
 		}
 		for _, k := range keysOf(GlobalConfig{}) {
@@ -232,14 +238,17 @@ func TestBoundedC17NullEntries(t *testing.T) {
 				}
 			}
 			walk(et)
-			for _, k := range append(keys, "") {
+			for _, k := range append(keys, "", "<null entry>") {
 				item := "{}"
-				if k != "" {
+				if k == "<null entry>" {
+					item = "null"
+				} else if k != "" {
 					item = "{" + k + ": null}"
 				}
 				in := "route:\n  receiver: r\nreceivers:\n- name: r\n  " + tag + ":\n  - " + item + "\n"
 				try(tag+"[0]."+k+": null", in)
 				try(tag+"[0]."+k+": null, global http_config null", "global:\n  http_config: null\n  smtp_tls_config: null\n"+in)
+				try(tag+"[0]."+k+": null, global slack url", "global:\n  slack_api_url: https://hooks.slack.com/services/x\n"+in)
 			}
 		}
 	}
